@@ -31,7 +31,8 @@ PC = '$pc'
 class Result:
     def __init__(self):
         self.ret = None
-        self.returns = []      # (bb, term, pc)
+        self.returns = []      # (bb, term, pc) - latest state per return block
+        self.ret_edges = {}    # (pred bb, return bb) -> (value of _0 on that edge, pc on that edge)
         self.calls = {}        # bb -> dict
         self.stores = {}       # (bb, stmt_idx) -> dict
         self.asserts = {}      # bb -> dict
@@ -101,14 +102,14 @@ class Opa:
         return args
 
     def inlinable(self, body):
-        if body.d.get('derived'):
+        if body.d.get('derived') and body.d.get('impl_trait') != 'std::default::Default':
             return False
         if len(body.blocks) > self.max_blocks_inline:
             return False
         return not self.cfg(body).back_edges()
 
     # ------------------------------------------------------------------ main entry
-    def run(self, name, args=None, seeds=None, depth=0, unwind=False, start=None, start_env=None):
+    def run(self, name, args=None, seeds=None, depth=0, unwind=False, start=None, start_env=None, avoid=()):
         """Analyse body `name`.  Returns a Result.  `seeds`: {'discr': {t_str(term): variant}, 'atoms':
         callable(term)->True/False/None, 'key': hashable}."""
         body = self.facts.bodies[name]
@@ -118,7 +119,7 @@ class Opa:
         self.stats['runs'] += 1
         phis = {}   # header -> set(locals)
         for _round in range(40):
-            res, new_phis = self._run_once(body, args, seeds, depth, unwind, phis, start, start_env)
+            res, new_phis = self._run_once(body, args, seeds, depth, unwind, phis, start, start_env, frozenset(avoid))
             if not new_phis:
                 return res
             for h, ls in new_phis.items():
@@ -127,7 +128,7 @@ class Opa:
         res.ret = TOP
         return res
 
-    def _run_once(self, body, args, seeds, depth, unwind, phis, start, start_env):
+    def _run_once(self, body, args, seeds, depth, unwind, phis, start, start_env, avoid=frozenset()):
         cfg = self.cfg(body, unwind)
         backs = set(cfg.back_edges())
         headers = {h for _, h in backs}
@@ -171,7 +172,7 @@ class Opa:
                 r = self.collapse(env.get(0), env)
                 if r is None:
                     r = ('tuple', ()) if body.d.get('ret_head') == 'unit' else TOP
-                res.returns.append((bb, r, env.get(PC, frozenset())))
+                res.returns = [x for x in res.returns if x[0] != bb] + [(bb, r, env.get(PC, frozenset()))]
                 res.ret = join(res.ret, r, self.width)
             elif k == 'switch':
                 d = self.collapse(self.operand(t['discr'], env), env) or TOP
@@ -207,10 +208,14 @@ class Opa:
                     edges.append((t['unwind'], None, env_before))
             for e in edges:
                 s, fact = e[0], e[1]
+                if s in avoid:
+                    continue
                 out = env if len(e) < 3 or e[2] is None else e[2]
                 if fact is not None:
                     out = dict(out)
                     out[PC] = out.get(PC, frozenset()) | {fact}
+                if body.blocks[s]['term']['t'] == 'return' and not body.blocks[s]['stmts']:
+                    res.ret_edges[(bb, s)] = (self.collapse(out.get(0), out), out.get(PC, frozenset()))
                 if (bb, s) in backs:
                     # back edge: record recurrences, discover phis; never changes the header state
                     old = state.get(s)
@@ -537,9 +542,9 @@ class Opa:
             if p is None:
                 return None
             if p[0] == 'variant':
-                return ('const', p[2])
+                return ('const', self.facts.discr_of(p[1], p[2]))
             if p[0] == 'set' and all(x[0] == 'variant' for x in p[1]):
-                return mk_set([('const', x[2]) for x in p[1]], self.width)
+                return mk_set([('const', self.facts.discr_of(x[1], x[2])) for x in p[1]], self.width)
             return ('discr', p)
         if r == 'cast':
             return self.operand(rv['o'], env)
